@@ -11,7 +11,7 @@
 //   handle: <depth>[/<hex>]*           (extra table wrappers created on the fly: table.New(level, p1).NewTable(p2)...)
 //   ops:    put h k v | del h k | get h k | has h k | it h prefix start
 //           bnew b h | bput b k v | bdel b k | bwrite b | breset b | brep b
-//           flush d | drop d | nfp d | snap h | sget i k | shas i k | sit i prefix start
+//           init d (LazyFlushable.InitUnderlyingDb) | flush d | drop d | nfp d | snap h | sget i k | shas i k | sit i prefix start
 //           compact h start limit      (range recorded at the base, not forwarded)
 //           ecompact h start limit     (forwarded to the engine: observation E ok|err)
 //           reopen                     (engine bases: Close, reopen the same directory; skipped while
@@ -278,6 +278,10 @@ type flusher interface {
 	DropNotFlushed()
 	NotFlushedPairs() int
 	NotFlushedSizeEst() int
+}
+
+type initer interface {
+	InitUnderlyingDb() (kvdb.Store, error)
 }
 
 type Stack struct {
@@ -621,6 +625,13 @@ func (s *Stack) Run(ops [][]string, stat func(string)) (obs []string) {
 					stat("flush_splits_batch")
 				}
 				fail("flush", f.Flush())
+			}
+		case "init":
+			d, _ := strconv.Atoi(o[1])
+			if l, ok := s.flus[d].(initer); ok {
+				_, err := l.InitUnderlyingDb()
+				fail("init", err)
+				stat("lazy_init")
 			}
 		case "drop":
 			d, _ := strconv.Atoi(o[1])
